@@ -905,39 +905,116 @@ pub fn sample_one<S: Strategy>(s: &S, seed: u64) -> S::Value {
 // ---------------------------------------------------------------------------
 
 /// Generates one case of `strat` from raw bytes (proptest's pass-through RNG consumes the
-/// bytes as its random stream) and runs the property closure on it. Panics on a violation
-/// (which is what libFuzzer records), prints the case first. Known findings and
-/// `inconclusive:` results are tolerated so that a campaign does not rediscover one
-/// failure forever.
-pub fn fuzz_one<C, S, F>(data: &[u8], property: &str, strat: &S, f: F)
+/// bytes as its random stream) and runs the property closure on it (see [`fuzz_case`]).
+pub fn fuzz_one<C, S, F>(data: &[u8], property: &str, sub: &str, strat: &S, f: F)
 where
     C: Debug + Serialize,
     S: Strategy<Value = C>,
     F: Fn(&C, &mut CaseCtx) -> Result<(), String>,
 {
-    static KNOWN: std::sync::OnceLock<KnownFindings> = std::sync::OnceLock::new();
-    let known = KNOWN.get_or_init(KnownFindings::load);
     let rng = TestRng::from_seed(RngAlgorithm::PassThrough, data);
     let mut runner = TestRunner::new_with_rng(Config { failure_persistence: None, ..Config::default() }, rng);
-    let Ok(tree) = strat.new_tree(&mut runner) else { return };
+    let Ok(tree) = strat.new_tree(&mut runner) else {
+        FUZZ.lock().unwrap().undecodable += 1;
+        return;
+    };
     let case = tree.current();
+    fuzz_case(property, sub, &case, f);
+}
+
+#[derive(Default)]
+struct FuzzStats {
+    executions: u64,
+    undecodable: u64,
+    nontrivial_evals: u64,
+    nontrivial: HashSet<u64>,
+    distinct: HashSet<u64>,
+    known_tolerated: BTreeMap<String, u64>,
+    inconclusive: u64,
+    labels: BTreeMap<String, u64>,
+    samples: Vec<Value>,
+}
+
+static FUZZ: std::sync::LazyLock<Mutex<FuzzStats>> = std::sync::LazyLock::new(|| Mutex::new(FuzzStats::default()));
+
+fn fuzz_dump_stats(st: &FuzzStats) {
+    let Ok(path) = std::env::var("VF_FUZZ_STATS") else { return };
+    let body = json!({
+        "executions": st.executions,
+        "undecodable_inputs": st.undecodable,
+        "distinct_cases": st.distinct.len(),
+        "nontrivial_evaluations": st.nontrivial_evals,
+        "distinct_nontrivial": st.nontrivial.len(),
+        "known_findings_tolerated": st.known_tolerated,
+        "inconclusive": st.inconclusive,
+        "labels": st.labels,
+        "samples": st.samples,
+    });
+    let tmp = format!("{path}.tmp");
+    if std::fs::write(&tmp, serde_json::to_string(&body).unwrap()).is_ok() {
+        let _ = std::fs::rename(&tmp, &path);
+    }
+}
+
+/// One fuzz iteration on an already decoded case, with the SAME closure the generated
+/// sub-check `sub` of `property` runs. Counts executions / distinct / non-trivial cases
+/// (dumped to $VF_FUZZ_STATS every 500 executions). A violation writes the JSON replay file
+/// that `./check <id> replay <file>` accepts, prints the VIOLATION line and aborts (so that
+/// libFuzzer also saves its own artifact). Known findings and `inconclusive:` results are
+/// tolerated and counted, so that a campaign does not rediscover one failure forever.
+pub fn fuzz_case<C, F>(property: &str, sub: &str, case: &C, f: F)
+where
+    C: Debug + Serialize,
+    F: Fn(&C, &mut CaseCtx) -> Result<(), String>,
+{
+    static KNOWN: std::sync::OnceLock<KnownFindings> = std::sync::OnceLock::new();
+    let known = KNOWN.get_or_init(KnownFindings::load);
     let mut ctx = CaseCtx::default();
-    let r = catch_unwind(AssertUnwindSafe(|| f(&case, &mut ctx)));
+    let r = catch_unwind(AssertUnwindSafe(|| f(case, &mut ctx)));
     let r = match r {
         Ok(r) => r,
         Err(p) => Err(format!("panic: {}", panic_msg(&p))),
     };
-    if let Err(msg) = r {
-        if msg.starts_with("inconclusive:") {
-            return;
-        }
-        if let Some(sig) = &ctx.signature {
-            if known.known(property, sig).is_some() {
-                return;
+    let case_v = serde_json::to_value(case).unwrap_or(Value::Null);
+    let key = ctx.distinct_key.unwrap_or_else(|| fnv64(case_v.to_string().as_bytes()));
+    let mut st = FUZZ.lock().unwrap();
+    st.executions += 1;
+    st.distinct.insert(key);
+    for l in &ctx.labels {
+        *st.labels.entry(l.clone()).or_insert(0) += 1;
+    }
+    let mut violation = None;
+    match r {
+        Ok(()) => {
+            if ctx.nontrivial {
+                st.nontrivial_evals += 1;
+                if st.nontrivial.insert(key) && st.samples.len() < 3 {
+                    st.samples.push(case_v.clone());
+                }
             }
         }
-        eprintln!("FUZZ-VIOLATION property={property}: {msg}");
-        eprintln!("case: {}", serde_json::to_string(&case).unwrap_or_default());
+        Err(msg) if msg.starts_with("inconclusive:") => st.inconclusive += 1,
+        Err(msg) => match ctx.signature.as_deref().filter(|s| known.known(property, s).is_some()) {
+            Some(sig) => *st.known_tolerated.entry(sig.to_string()).or_insert(0) += 1,
+            None => violation = Some(msg),
+        },
+    }
+    if st.executions % 500 == 0 || st.executions == 1 || violation.is_some() {
+        fuzz_dump_stats(&st);
+    }
+    drop(st);
+    if let Some(msg) = violation {
+        let body = json!({ "property": property, "sub": sub, "seed": 0, "tier": "thorough", "message": msg, "case": case_v, "found_by": "libFuzzer campaign" });
+        let txt = serde_json::to_string_pretty(&body).unwrap();
+        let dir = match std::env::var("VERIF_OUT_DIR") {
+            Ok(d) => format!("{d}/replays"),
+            Err(_) => format!("{VERIF_ROOT}/replays"),
+        };
+        let _ = std::fs::create_dir_all(&dir);
+        let path = format!("{dir}/{property}-fuzz-{sub}-{:016x}.json", fnv64(txt.as_bytes()));
+        let _ = std::fs::write(&path, txt);
+        eprintln!("FUZZ-VIOLATION property={property} sub={sub}: {msg}");
+        eprintln!("VIOLATION property={property} replay={path}");
         std::process::abort();
     }
 }
